@@ -258,6 +258,37 @@ class EngineCheck(PropertyCheck):
                                             "kind": "schedule-dependent", "input": {"ops": c.harness_lines(), "ops_alt": c2.harness_lines()}})
         res.distribution.setdefault("engine", {})["cross_schedule_pairs"] = n
 
+    @staticmethod
+    def failed_build_sandwich(rng, rules):
+        keys = sorted(rules)
+        inputs = [k for k in keys if rules[k].kind == 0]
+        derived = [k for k in keys if rules[k].kind == 1] or keys
+        tgt = rng.choice(derived)
+        stamp = 100
+        ops = []
+        for k in inputs:
+            stamp += 1
+            ops.append({"op": "M", "slot": k, "val": stamp})
+
+        def build(cancel_at):
+            items = [(0, [rng.choice(derived) for _ in range(rng.below(3))]) for _ in range(rng.below(8))]
+            return {"op": "B", "key": tgt, "cancel_at": cancel_at, "mode": 0, "items": items}
+
+        def touch():
+            nonlocal stamp
+            for _ in range(1 + rng.below(3)):
+                if inputs:
+                    stamp += 1
+                    ops.append({"op": "M", "slot": rng.choice(inputs), "val": stamp})
+        ops.append(build(0))
+        for _ in range(1 + rng.below(3)):
+            touch()
+            ops.append(build(2 + rng.below(30)))
+            if rng.chance(2, 3):
+                touch()
+            ops.append(build(0))
+        return ops
+
     def run_restart_split(self, ctx, res, n):
         """C03 (engine level): every history is executed once in a single engine and once with an
         engine restart (new engine, same database) inserted at every build boundary; whenever a build
@@ -271,6 +302,10 @@ class EngineCheck(PropertyCheck):
             rules = E.gen_program(rng, nk, cyclic=rng.chance(1, 4))
             ops = E.gen_history(rng, rules, 3 + rng.below(8 if not ctx.thorough else 14), cancel=rng.chance(1, 3),
                                 allow_restart=False)
+            if i % 3 == 1:
+                # directed: one target, and between two complete builds of it a build that fails (cancelled early
+                # or late) with inputs changing on either side — what a failed build persists matters only here
+                ops = self.failed_build_sandwich(rng, rules)
             # every third history runs on the real SQLite database (both variants), the others on the observing one
             sq = (i % 3 == 2)
             single.append(E.Case(rules, ops, sqlite=sq))
